@@ -51,6 +51,10 @@ pub enum Item {
     AttachHandleInUse,
     FrameOnUnmappedChannel,
     SecondBegin,
+    /// a begin that claims to answer a session the endpoint never began (remote-channel it never allocated)
+    BeginUnknownRemoteChannel(u16),
+    /// a begin of the peer's own on a fresh channel (a client does not accept sessions)
+    BeginFromPeer,
     EndUnmapped,
     SecondOpen,
     DetachUnattached,
@@ -72,6 +76,7 @@ impl Item {
             Item::TransferBeyondCredit(n) => json!({"transfer_beyond_credit": n}),
             Item::TransfersBeyondWindow(n) => json!({"transfers_beyond_window": n}),
             Item::FirstFrameNotOpen(k) => json!({"first_frame_not_open": k}),
+            Item::BeginUnknownRemoteChannel(c) => json!({"begin_unknown_remote_channel": c}),
             other => json!({"violation": format!("{:?}", other)}),
         }
     }
@@ -91,6 +96,9 @@ impl Item {
         if let Some(n) = j.get("first_frame_not_open").and_then(|x| x.as_u64()) {
             return Some(Item::FirstFrameNotOpen(n as u8));
         }
+        if let Some(n) = j.get("begin_unknown_remote_channel").and_then(|x| x.as_u64()) {
+            return Some(Item::BeginUnknownRemoteChannel(n as u16));
+        }
         let v = j.get("violation")?.as_str()?;
         Some(match v {
             "DispositionHugeRange" => Item::DispositionHugeRange,
@@ -101,6 +109,7 @@ impl Item {
             "AttachHandleInUse" => Item::AttachHandleInUse,
             "FrameOnUnmappedChannel" => Item::FrameOnUnmappedChannel,
             "SecondBegin" => Item::SecondBegin,
+            "BeginFromPeer" => Item::BeginFromPeer,
             "EndUnmapped" => Item::EndUnmapped,
             "SecondOpen" => Item::SecondOpen,
             "DetachUnattached" => Item::DetachUnattached,
@@ -335,6 +344,14 @@ pub fn run(item: &Item) -> Observed {
                     let b = Begin { remote_channel: Some(0), next_outgoing_id: 0, incoming_window: 100, outgoing_window: 100, handle_max: Handle(10), offered_capabilities: None, desired_capabilities: None, properties: None };
                     let _ = peer.send(0, Performative::Begin(b), &[]).await;
                 }
+                Item::BeginUnknownRemoteChannel(c) => {
+                    let b = Begin { remote_channel: Some(*c), next_outgoing_id: 0, incoming_window: 100, outgoing_window: 100, handle_max: Handle(10), offered_capabilities: None, desired_capabilities: None, properties: None };
+                    let _ = peer.send(3, Performative::Begin(b), &[]).await;
+                }
+                Item::BeginFromPeer => {
+                    let b = Begin { remote_channel: None, next_outgoing_id: 0, incoming_window: 100, outgoing_window: 100, handle_max: Handle(10), offered_capabilities: None, desired_capabilities: None, properties: None };
+                    let _ = peer.send(4, Performative::Begin(b), &[]).await;
+                }
                 Item::EndUnmapped => {
                     let _ = peer.send(9, Performative::End(End { error: None }), &[]).await;
                 }
@@ -510,7 +527,7 @@ pub fn gen_item(rng: &mut Rng) -> Item {
         14 => Item::DuplicateAttach,
         15 => Item::AttachHandleInUse,
         16 => Item::FrameOnUnmappedChannel,
-        17 => rng.pick(&[Item::SecondBegin, Item::EndUnmapped, Item::SecondOpen]).clone(),
+        17 => rng.pick(&[Item::SecondBegin, Item::EndUnmapped, Item::SecondOpen, Item::BeginFromPeer, Item::BeginUnknownRemoteChannel(1), Item::BeginUnknownRemoteChannel(7), Item::BeginUnknownRemoteChannel(65535)]).clone(),
         18 => rng.pick(&[Item::DetachUnattached, Item::TransferToSender, Item::AttachHugeHandle, Item::AttachRebind]).clone(),
         19 => Item::FirstFrameNotOpen(rng.below(4) as u8),
         20 => {
@@ -531,7 +548,7 @@ pub fn main(opts: &Opts) {
         "a client with a session, a sender and a receiver against a peer that sends one hostile item and then behaves: raw byte strings with a \
          length field of 0..7 or beyond 2^31, frame headers with every kind of bad doff / type, random, truncated, 5000-deep and 4-GiB-claiming \
          bodies, and well-formed frames that violate the protocol (beyond credit, huge and unknown disposition ranges, unattached handles, \
-         duplicate and colliding attaches, unmapped channels, begin / end / open out of turn, a first frame that is not an open); afterwards the \
+         duplicate and colliding attaches, unmapped channels, begin / end / open out of turn, a begin for a remote-channel never allocated, a begin of the peer's own, a first frame that is not an open); afterwards the \
          client sends, receives, closes both links, ends the session and closes the connection under a 10-virtual-second limit each, with \
          panics, allocation and real time measured; non-trivial = every case but the control; distinct by hash of the item",
     );
